@@ -264,6 +264,9 @@ class Resolver:
             if self._impure(value):
                 return sym("def", ast.Constant(value=d))
             if self._empty_container(value):
+                built = self._loop_built(name, value, d, depth, stack)
+                if built is not None:
+                    return built
                 # an empty container that is read later has been filled by mutation in between: keep it symbolic
                 return sym("mut", ast.Constant(value=name), ast.Constant(value=d))
             return self._res(value, d, depth + 1, stack, {})
@@ -278,6 +281,63 @@ class Resolver:
                     return whole.elts[i]  # e.g. a helper call that was looked through
                 return sym("unpack", whole, ast.Constant(value=i))
         return sym("def", ast.Constant(value=d))
+
+    def _loop_built(self, name: str, value: ast.AST, d: int, depth: int, stack) -> Optional[ast.AST]:
+        """`x = []` / `{}` that is filled by exactly one unconditional `x.append(e)` / `x[k] = v` in one for-loop and only
+        read after that loop has run to completion is the comprehension `[e for t in it]` / `{k: v for t in it}`."""
+        cfg = self.cfg
+        if isinstance(value, ast.Call) or cfg.enclosing_loops(d):
+            return None
+        is_dict = isinstance(value, ast.Dict)
+        sites = []
+        reads = []
+        for n in cfg.nodes:
+            if n.ast is None or n.id == d:
+                continue
+            roots = [n.ast.iter] if n.kind == "for" else [n.ast.test] if n.kind == "test" and hasattr(n.ast, "test") else [n.ast]
+            for root in roots:
+                for sub in ast.walk(root):
+                    if isinstance(sub, (ast.FunctionDef, ast.Lambda)):
+                        continue
+                    if isinstance(sub, ast.Name) and sub.id == name:
+                        if d not in cfg.reaching()[n.id].get(name, ()):
+                            continue
+                        reads.append((n, sub))
+        for n in cfg.nodes:
+            if n.kind != "stmt" or d not in cfg.reaching()[n.id].get(name, ()):
+                continue
+            a = n.ast
+            if not is_dict and isinstance(a, ast.Expr) and isinstance(a.value, ast.Call) and isinstance(a.value.func, ast.Attribute) and isinstance(a.value.func.value, ast.Name) and a.value.func.value.id == name:
+                if a.value.func.attr == "append" and len(a.value.args) == 1 and not a.value.keywords:
+                    sites.append((n, None, a.value.args[0], a.value.func.value))
+                else:
+                    return None
+            elif is_dict and isinstance(a, ast.Assign) and len(a.targets) == 1 and isinstance(a.targets[0], ast.Subscript) and isinstance(a.targets[0].value, ast.Name) and a.targets[0].value.id == name:
+                sites.append((n, a.targets[0].slice, a.value, a.targets[0].value))
+        if len(sites) != 1:
+            return None
+        sn, k_e, v_e, self_ref = sites[0]
+        loops = [h for h in cfg.enclosing_loops(sn.id) if cfg.nodes[h].kind == "for"]
+        if len(loops) != 1 or len(cfg.enclosing_loops(sn.id)) != 1 or cfg.loop_has_break.get(loops[0]) or not cfg.dominates(d, loops[0]):
+            return None
+        h = loops[0]
+        body = cfg.loop_body[h]
+        if any(x in body for x, _ in cfg.controlling(sn.id)):
+            return None
+        if any(m.kind == "stmt" and isinstance(m.ast, (ast.Continue, ast.Break, ast.Return)) for m in (cfg.nodes[i] for i in body)):
+            return None
+        # every other occurrence of the name must be a read after the loop completed (or a rebinding, which ends this def)
+        for n, occ in reads:
+            if occ is self_ref:
+                continue
+            if isinstance(occ.ctx, ast.Store):
+                continue
+            if n.id in body or n.id == h or h not in cfg.completed_loops_at(n.id):
+                return None
+        # the mutation must not be reachable again (a second, enclosing repetition)
+        it = self._res(cfg.nodes[h].ast.iter, h, depth + 1, stack, {})
+        body_terms = ([self._res(k_e, sn.id, depth + 1, stack, {})] if k_e is not None else []) + [self._res(v_e, sn.id, depth + 1, stack, {})]
+        return sym("comp", ast.Constant(value="DictComp" if is_dict else "ListComp"), *body_terms, sym("gen", it))
 
     @staticmethod
     def _empty_container(value: ast.AST) -> bool:
